@@ -25,6 +25,7 @@ def run(ctx):
         "the JSON reader of grammar.json (Lean.Data.Json + TsVerif/C03/Cfg.lean; rule order passed separately because Lean's JSON objects are sorted)",
         "hand port TsVerif/C03/Driver.lean of the single-version path of ts_parser__advance/shift/reduce/accept (tied by correspondence with the real parser on every explored string)",
         "the formal reading of 'the tree is a derivation' (Matches/NodeBody/ExtraOK in TsVerif/C03/Derive.lean): visible children, hidden rules expanded in place, innermost FIELD wins except directly nested wrappers (outer wins, as the grammar reader merges them), ALIAS on an inlined rule is handed down",
+        "for strings longer than the exhaustive bound, membership of un-mutated random derivations is taken from the harness' derivation generator (gen::GrammarGen)",
         "token-level language DerivesTok (Lang.lean) covers grammars whose terminals are anonymous strings or whole-rule tokens; text rendering of token strings (one space between tokens) in the harness",
     ]
     ctx.assumptions += [
@@ -140,6 +141,12 @@ def run(ctx):
         judge = kv.get("judge", "?")
         if g in nofix and judge.startswith("FAIL membership") and "member=false" in judge:
             judge = "ok"   # the enumerator did not converge: its negative answers are not used
+        # a sentence generated from the grammar (un-mutated random derivation of a token-level grammar)
+        # is a member by construction: it must be accepted, whatever its length (completeness of the
+        # LR construction beyond the exhaustive bound; the derivation generator in the harness is the
+        # oracle for THIS clause only and is listed in the trusted base)
+        if judge == "ok" and re.search(r"-d\d+$", cid) and kv.get("err") == "1" and case_str.get(cid, ("", ""))[1].startswith("t:"):
+            judge = "FAIL generated-sentence-rejected(has_error=true);"
         if kv["corr"] != "skip":
             corr_cmp += 1
         judge_eval += 1
